@@ -40,6 +40,7 @@ func init() {
 		"go.refs":        goRefs,
 		"go.copyrem":     goCopyRemaining,
 		"go.negarg":      goNegArg,
+		"go.bigarg":      goNegArg, // same contract: no panic, an error, state untouched
 		"go.writeint":    goWriteInt,
 		"go.minbits":     goMinBits,
 	}})
@@ -1275,6 +1276,14 @@ func negItem(g *h.G) string {
 	}
 }
 
+// bigItem: a read / skip whose count is near 2^60 .. 2^63: products such as size*8 overflow a Go int there
+func bigItem(g *h.G, i int) string {
+	sizes := []uint64{1 << 60, 1<<60 + 1, 1<<61 - 1, 1 << 61, 1<<61 + 3, 1 << 62, 1<<62 + 7, 1<<63 - 8, 1<<63 - 1}
+	n := sizes[i%len(sizes)]
+	ops := []string{"ry", "rs", "sk", "rU", "rI", "ru", "pu", "ri"}
+	return fmt.Sprintf("%s:%d", ops[(i/len(sizes))%len(ops)], n)
+}
+
 // negItem2: a negative-argument item available through the Cell wrappers
 func negItem2(g *h.G) string {
 	for {
@@ -1287,6 +1296,11 @@ func negItem2(g *h.G) string {
 
 func (q *seqGen) step() {
 	g := q.g
+	if g.Rng.Intn(45) == 0 {
+		q.items = append(q.items, bigItem(g, g.Rng.Intn(72)))
+		q.errs = true
+		return
+	}
 	if g.Rng.Intn(30) == 0 {
 		it := negItem(g)
 		if strings.HasPrefix(it, "o") {
@@ -2035,6 +2049,22 @@ func genC06(g *h.G) {
 	}
 	for n := 0; n <= 7; n++ {
 		g.Emit("go.refs", fmt.Sprint(n))
+	}
+	for i := 0; i < 72*g.Scale(2, 6); i++ { // every (operation, size) pair, deterministically
+		nb := 8 * g.Rng.Intn(6)
+		if i%3 == 0 {
+			nb = g.Rng.Intn(40)
+		}
+		bin := randBits(g, nb)
+		if bin == "" {
+			bin = "-"
+		}
+		sk := g.Rng.Intn(nb + 1)
+		if i%2 == 0 {
+			sk = sk / 8 * 8 // the byte-aligned path of ReadBytes slices the buffer directly
+		}
+		g.Emit("go.bigarg", bin, fmt.Sprint(sk), bigItem(g, i))
+		g.Count("huge_int_argument")
 	}
 	for i := 0; i < g.Scale(600, 6000); i++ {
 		nb := g.Rng.Intn(40)
